@@ -378,6 +378,26 @@ SPECIAL_FACTS = {
 }
 
 
+def from_term(t):
+    """SymReal for a raw z3 term (e.g. produced by differentiation or substitution): every
+    function application inside it is registered in the current path so that its ground facts
+    exist"""
+    if CUR is not None:
+        seen = {}
+
+        def walk(u):
+            k = u.get_id()
+            if k in seen:
+                return
+            seen[k] = u
+            for c in u.children():
+                walk(c)
+            if z3.is_app(u) and u.decl().kind() == z3.Z3_OP_UNINTERPRETED and u.num_args() > 0:
+                CUR.register_app(u.decl().name(), list(u.children()), u)
+        walk(t)
+    return SymReal(t)
+
+
 def _neg_coeff(t):
     n = _num(t)
     if n is not None:
@@ -1223,11 +1243,27 @@ class UFModule:
             return realfn
 
         def f(*args, **kw):
+            if symbolic_active() and name == "gamma" and len(args) == 1 and _np.ndim(args[0]) == 0 \
+                    and not is_sym(args[0]):
+                g = _gamma_half_integer(float(args[0]))
+                if g is not None:
+                    return g        # exact value in terms of the symbolic pi (np.pi is symbolic too)
             if symbolic_active() and any(is_sym(a) or (isinstance(a, _np.ndarray) and a.dtype == object)
                                          for a in args):
                 return _elementwise(lambda *vs: uf(self._prefix + name, *vs), *args)
             return realfn(*args, **kw)
         return f
+
+
+def _gamma_half_integer(x):
+    """Gamma(n) = (n-1)!, Gamma(n + 1/2) = (2n)!/(4^n n!) sqrt(pi) (T4), for 0 < x <= 12"""
+    from math import factorial
+    if not (0 < x <= 12) or (2 * x) != int(2 * x):
+        return None
+    if x == int(x):
+        return SymReal(z3.RealVal(factorial(int(x) - 1)))
+    n = int(x - 0.5)
+    return Fraction(factorial(2 * n), 4 ** n * factorial(n)) * uf("sqrt", SymReal(PI))
 
 
 SHIM_LOG = []
